@@ -638,6 +638,12 @@ type TreeOpts struct {
 	Fanout    int // max children per interior page (0 = as many as fit; min 2)
 	SepSlack  bool
 	Root      int // page number for the root (0 = allocate)
+	// KeylessRoot (with a fixed root page, i.e. sqlite_master on page 1): the
+	// root is an interior page without any key, holding nothing but the
+	// right-most pointer to the real tree - what SQLite leaves when
+	// sqlite_master has shrunk to a single leaf that does not fit page 1,
+	// which has 100 bytes less room than its child.
+	KeylessRoot bool `json:",omitempty"`
 }
 
 // TableRow is one row of a table b-tree.
@@ -739,6 +745,16 @@ func groups(n, limit int, fits func(start, count int) bool) [][2]int {
 
 // BuildTable builds a table b-tree from rows sorted by rowid.
 func (b *Builder) BuildTable(rows []TableRow, o TreeOpts) TableShape {
+	if o.KeylessRoot && o.Root != 0 {
+		inner := o
+		inner.Root, inner.KeylessRoot = 0, false
+		shape := b.BuildTable(rows, inner)
+		b.WritePage(o.Root, TableInterior, nil, shape.Root)
+		shape.Root = o.Root
+		shape.Depth++
+		shape.Pages++
+		return shape
+	}
 	var shape TableShape
 	avail := func(kind byte) int {
 		ho := 0
